@@ -64,7 +64,10 @@ class RoundTrip:
                 self.stage, self.exc = 'save', e
                 return
             self.data = open(path, 'rb').read()
-            rset2 = new_rset(self.built, fmt)
+            # "a fresh resource set that knows the same metamodel": the same EPackage object, or the
+            # same description rendered a second time
+            built2 = G.Built(mm) if opts.get('fresh_metamodel') else self.built
+            rset2 = new_rset(built2, fmt)
             try:
                 res2 = rset2.get_resource(URI(path))
             except Exception as e:          # noqa
@@ -78,6 +81,55 @@ class RoundTrip:
                 return
             if keep_loaded:
                 self.loaded = res2
+        if fmt == 'json' and self.stage is None:
+            try:
+                self.wf += json_text_problems(mm, md, json.loads(self.data.decode('utf-8')))
+            except Exception as e:      # noqa
+                self.wf.append(('json-text', None, f'the text written is not the JSON of a model: {type(e).__name__}: {e}'))
+
+
+def json_text_problems(mm, md, doc):
+    """C09 "attribute values with their JSON-native types": in the text, an int/float/bool/str typed attribute value is
+    a JSON number/boolean/string (None is null), values of other types are strings"""
+    out = []
+    native = {'EInt': int, 'ELong': int, 'EBigInteger': int, 'EDouble': float, 'EFloat': float, 'EBoolean': bool,
+              'EString': str, 'EChar': str}
+    roots = doc if isinstance(doc, list) else [doc]
+
+    def ok(x, typ):
+        if x is None:
+            return True
+        t = native.get(typ, str)
+        if t is int:
+            return isinstance(x, int) and not isinstance(x, bool)
+        if t is float:
+            return isinstance(x, float)
+        return isinstance(x, t)
+
+    def go(d, cls):
+        if 'eClass' in d:
+            cls = d['eClass'].rsplit('/', 1)[-1]
+        if not any(c['name'] == cls for c in mm['classes']):
+            return
+        for f in G.all_features(mm, cls):
+            if f['name'] not in d:
+                continue
+            v = d[f['name']]
+            if f['kind'] == 'attr':
+                vals = v if (f['many'] and isinstance(v, list)) else [v]
+                for x in vals:
+                    if not ok(x, f['type']):
+                        out.append(('json-native-type', f['name'],
+                                    f'{f["name"]} ({f["type"]}) is written as JSON {type(x).__name__} {x!r}'))
+                        break
+            elif f['containment']:
+                for c in (v if isinstance(v, list) else [v]):
+                    if isinstance(c, dict):
+                        go(c, f['type'])
+    for r, oid in zip(roots, md['roots']):
+        if isinstance(r, dict):
+            go(r, md['objs'][str(oid)]['cls'])
+    return out
 
 
 # ---------------------------------------------------------------- signatures
@@ -211,7 +263,7 @@ def failures(prop, mm, md, fmt, opts, rt=None):
         out.append((sig, f'{clause} differs at {path}{"." + fname if fname else ""}: saved {v0!r} loaded {v1!r}'))
     for clause, fname, text in rt.wf:
         f = feature_by_name(mm, fname) if fname else None
-        sig = dict(base, clause='loaded-' + clause, feature=G.feature_shape(f), value=None)
+        sig = dict(base, clause=(clause if clause.startswith('json-') else 'loaded-' + clause), feature=G.feature_shape(f), value=None)
         out.append((sig, text))
     return out
 
@@ -295,12 +347,20 @@ def _prune_mm(mm, md):
 
 def candidates(case):
     mm, md, fmt, opts = case['mm'], case['md'], case['format'], case['options']
-    for k in OPTION_NAMES[fmt]:
+    for k in OPTION_NAMES[fmt] + ['fresh_metamodel']:
         if opts.get(k):
             yield dict(case, options=dict(opts, **{k: False}))
     if len(md['roots']) > 1:
         for r in md['roots']:
             yield dict(case, md=_drop_objects(mm, md, _subtree(mm, md, r)))
+    if len(md['roots']) == 1:
+        # a subtree alone: one child becomes the only root
+        for k in sorted(md['objs'], key=int):
+            if int(k) not in md['roots']:
+                keep = set(_subtree(mm, md, int(k)))
+                nd = _drop_objects(mm, md, [int(x) for x in md['objs'] if int(x) not in keep])
+                nd['roots'] = [int(k)]
+                yield dict(case, md=nd)
     for k in sorted(md['objs'], key=int, reverse=True):
         if int(k) not in md['roots']:
             yield dict(case, md=_drop_objects(mm, md, _subtree(mm, md, int(k))))
@@ -308,7 +368,7 @@ def candidates(case):
         o = md['objs'][k]
         for i in range(len(o['sets'])):
             f = G.find_feature(mm, o['cls'], o['sets'][i][0])
-            if f and f['kind'] == 'ref' and f['containment']:
+            if f and f['kind'] == 'ref' and f['containment'] and o['sets'][i][1] not in ([], None):
                 continue            # children are dropped as objects
             nd = copy.deepcopy(md)
             del nd['objs'][k]['sets'][i]
@@ -385,6 +445,7 @@ def gen_options(rng, fmt):
     o = {'uuid': rng.random() < 0.4, 'serialize_default': rng.random() < 0.4}
     if fmt == 'xmi':
         o['xmi_type'] = rng.random() < 0.2
+    o['fresh_metamodel'] = rng.random() < 0.3
     return o
 
 
@@ -393,7 +454,7 @@ def _hist(d, k):
 
 
 def describe_case(stats, mm, md, opts, fmt):
-    _hist(stats['options'], ','.join(active_options(fmt, opts)) or 'none')
+    _hist(stats['options'], ','.join(active_options(fmt, opts) + (['fresh_metamodel'] if opts.get('fresh_metamodel') else [])) or 'none')
     _hist(stats['roots'], len(md['roots']))
     _hist(stats['objects'], min(len(md['objs']), 12))
     for o in md['objs'].values():
